@@ -7,7 +7,8 @@ open Pyemv Pyemv.Gen
 
 theorem ac_generate_arpc_1 (sk q rc : Bytes) : Gen.ac.generate_arpc_1 sk q rc = generateArpc1 sk q rc := by
   unfold Gen.ac.generate_arpc_1 generateArpc1
-  simp only [tools_xor, rep_flatten, zeros, tools_cbc, bind, Except.bind, pure, Except.pure]
+  try simp only [bind_pure]      -- `do let v ← e; pure v` is `e` (single-exit rewrites)
+  simp only [tools_xor, rep_flatten, zeros, tools_cbc, bind, Except.bind, pure, Except.pure, except_match_eta]
   repeat (first | rfl | split)
   all_goals first | (simp_all; done) | slice_forms
 
